@@ -132,6 +132,8 @@ func TestMakeReplays(t *testing.T) {
 	write("C01", "c01", "in-list-of-numeric-texts", "value in list('1', '2') matched nothing", &c01Case{Stmt: sel(lib.InList(lib.Value(), lib.Call("list", lib.Str("1"), lib.Str("2")))), Pairs: abc, Batch: 2})
 	write("C09", "c09dyn", "null-and-empty-text-one-group", "a null JSON member and the empty text shared a group", &c09DynCase{Pairs: []lib.Pair{{K: "k0", V: `{"n": null}`}, {K: "k1", V: `{"n": ""}`}, {K: "k2", V: `{"n": "x"}`}}, Batch: 2})
 
+	write("C06", "c06chain", "name-chain-aggregate-parameter", "quantile(x, a30) behind a chain of 30 named constants took 2^30 steps to plan", &c06Case{Query: c06ParamChain("1.0", "%s*%s", 30, "quantile(strlen(value), a%d)"), Pairs: abc})
+
 	write("C03", "c03", "limit-skip-boundary", "limit 2,2 with batch size 2 returned rows 0-1", &c03Case{Stmt: &lib.Stmt{Kind: "select", Star: true, Where: lib.Bin("!=", lib.Key(), lib.Str("zz")), Lim: &lib.Limit{Start: 2, Count: 2, Two: true}}, Pairs: abc, Batch: 2, Batch2: 32})
 	write("C03", "c03", "in-split-row", "'1' in split(value, ',') failed row at a time only", &c03Case{Stmt: &lib.Stmt{Kind: "select", Fields: []lib.SelField{{E: lib.Key()}, {E: lib.Call("split", lib.Value(), lib.Str(","))}}, Where: lib.InList(lib.Str("1"), lib.Call("split", lib.Value(), lib.Str(",")))}, Pairs: abc, Batch: 2, Batch2: 32})
 	write("C03", "c03", "list-index-row", "list(1,2,3)[1] failed row at a time only", &c03Case{Stmt: &lib.Stmt{Kind: "select", Fields: []lib.SelField{{E: lib.Index(lib.Call("list", lib.Int(1), lib.Int(2), lib.Int(3)), 1)}}, Where: lib.Bin("^=", lib.Key(), lib.Str("a"))}, Pairs: abc, Batch: 2, Batch2: 32})
